@@ -39,6 +39,9 @@ inductive Simple
   | importName (n : Name)
   | importPath (p : String)
   | call (f : Name)
+  | trace (b : Bool)        -- `trace true;` / `trace false;` (statement_trace.cpp: `ctx.trace(b)` when it RUNS)
+  | raise                   -- `raise BOOM;` (any statement that ends its program with a run-time error)
+  | bad                     -- a text the parser rejects for a reason that has nothing to do with permissions
   deriving DecidableEq, Repr
 
 /-- Top-level statements: a simple one, a function definition, `include "file";`. -/
@@ -94,6 +97,8 @@ inductive Node
   | ctor (m : Name) (t : Tag)
   | call (f : Name)
   | nop
+  | trace (b : Bool)
+  | raise
   deriving DecidableEq, Repr
 
 structure Obj where
@@ -101,16 +106,20 @@ structure Obj where
   t : Tag
   deriving DecidableEq, Repr
 
-/-- A context: the trusted flag, the module objects it holds (in variables, tables, tuples, the returned slot), its
-function table (name ↦ compiled body). -/
+/-- A context: the trusted flag (`_flags & FLAG_TRUSTED`), the module objects it holds (in variables, tables, tuples,
+the returned slot), its function table (name ↦ compiled body), the trace mode (`_trace`: the only other per-context
+switch a host or a script can flip; kept here so that "nothing but the trust setter changes the trusted bit" is a
+statement about every member that writes a flag of `Context`). -/
 structure Ctx where
   trusted : Bool
   objs : List Obj
   funs : List (Name × List Node)
+  trace : Bool
   deriving Repr
 
 inductive PErr
   | restrictedCtor | restrictedPath | restrictedInclude | importFailed | undefinedSymbol | includeFailed | tooNested
+  | syntaxError
   deriving DecidableEq, Repr
 
 def lookupFun (funs : List (Name × List Node)) (f : Name) : Option (List Node) :=
@@ -156,6 +165,9 @@ def compileSimple (ext : Ext) (tr : Bool) (funs : List (Name × List Node)) (p :
     match lookupFun funs f with
     | some _ => (p, .ok (.call f))
     | none => (p, .error .undefinedSymbol)
+  | .trace b => (p, .ok (.trace b))        -- statement_trace.cpp: parsing changes nothing
+  | .raise => (p, .ok .raise)
+  | .bad => (p, .error .syntaxError)
 
 def compileSimples (ext : Ext) (tr : Bool) (funs : List (Name × List Node)) : Proc → List Simple → Proc × Except PErr (List Node)
   | p, [] => (p, .ok [])
@@ -216,17 +228,34 @@ def compileTops (ext : Ext) (tr : Bool) : Nat → Nat → Proc → Funs → List
   | 0 => fun _ p funs _ => ⟨p, funs, .error .tooNested⟩
   | fuel + 1 => compileList ext tr (compileTops ext tr fuel)
 
+/-- What a run carries: the objects of the context, its trace mode, whether a run-time error ended the run. -/
+structure RunSt where
+  objs : List Obj
+  trace : Bool
+  raised : Bool
+  deriving Repr
+
 /-- Execution: a constructor node creates an object carrying the node's tag; a call runs the body currently
-installed under that name. Run-time failures are not modelled (objects are over-approximated). -/
-def runNodes (funs : List (Name × List Node)) : Nat → List Node → List Obj → List Obj
-  | 0, _, objs => objs
-  | _ + 1, [], objs => objs
-  | fuel + 1, .ctor m t :: rest, objs => runNodes funs fuel rest (objs ++ [⟨m, t⟩])
-  | fuel + 1, .call f :: rest, objs =>
-    match lookupFun funs f with
-    | some b => runNodes funs fuel rest (runNodes funs fuel b objs)
-    | none => runNodes funs fuel rest objs
-  | fuel + 1, .nop :: rest, objs => runNodes funs fuel rest objs
+installed under that name in a runtime context that STARTS with the caller's trace mode (functor_manager.cpp:128,135)
+and whose own `trace` statements stay local; `trace b` at the level of the context itself sets its trace mode; a
+`raise` ends the run (what was created before stays in the context). Run-time failures of constructors are not
+modelled here (objects are over-approximated). No node writes the trusted bit: `RunSt` has no such field. -/
+def runNodes (funs : List (Name × List Node)) : Nat → List Node → RunSt → RunSt
+  | 0, _, r => r
+  | _ + 1, [], r => r
+  | fuel + 1, n :: rest, r =>
+    if r.raised then r else
+    match n with
+    | .ctor m t => runNodes funs fuel rest { r with objs := r.objs ++ [⟨m, t⟩] }
+    | .call f =>
+      match lookupFun funs f with
+      | some b =>
+        let r1 := runNodes funs fuel b r
+        runNodes funs fuel rest { r1 with trace := r.trace }
+      | none => runNodes funs fuel rest r
+    | .nop => runNodes funs fuel rest r
+    | .trace b => runNodes funs fuel rest { r with trace := b }
+    | .raise => { r with raised := true }
 
 /-- The whole process as the host sees it. `trustedSeen` is a ghost flag: some context was trusted at some time. -/
 structure World where
@@ -235,18 +264,20 @@ structure World where
   exes : List (Option (List Node))
   trustedSeen : Bool
   lastErr : Option PErr
+  lastRaised : Bool            -- the last `run` ended with a run-time error
   deriving Repr
 
-def World.init : World := ⟨Proc.init, [], [], false, none⟩
+def World.init : World := ⟨Proc.init, [], [], false, none, false⟩
 
 inductive HostOp
   | unban (n : Name)                     -- bloc_unban_plugin / PluginManager::unbanPlugin
   | clearPerms                           -- bloc_clear_plugin_permissions
   | newCtx (trusted : Bool)              -- new Context [+ trusted(true)]; the C API can only create untrusted ones
   | setTrusted (k : Nat) (b : Bool)      -- Context::trusted(b) (C++ only)
-  | clone (k : Nat)                      -- Context::clone / bloc_clone_context
-  | free (k : Nat)
-  | purge (k : Nat)                      -- Context::purge: variables and functions dropped, flags kept
+  | setTrace (k : Nat) (b : Bool)        -- Context::trace(b) / bloc_ctx_enable_trace
+  | clone (k : Nat)                      -- Context::clone / bloc_clone_context[2]: new Context, `_flags` copied, symbols and functions copied
+  | free (k : Nat)                       -- delete / bloc_free_context
+  | purge (k : Nat)                      -- Context::purge / bloc_ctx_purge: variables and functions dropped, trace mode reset, `_flags` kept
   | compile (k : Nat) (prog : List Top)  -- Parser::parse in context k; the executable (or nothing) is appended
   | run (x : Nat) (k : Nat)              -- Executable::run(ctx k, statements of x)
   | freeExe (x : Nat)
@@ -268,19 +299,23 @@ def getExe (w : World) (x : Nat) : Option (List Node) :=
 def hostStep (ext : Ext) (w : World) : HostOp → World
   | .unban n => { w with proc := w.proc.unban n }
   | .clearPerms => { w with proc := w.proc.clearPerms }
-  | .newCtx tr => { w with ctxs := w.ctxs ++ [some ⟨tr, [], []⟩], trustedSeen := w.trustedSeen || tr }
+  | .newCtx tr => { w with ctxs := w.ctxs ++ [some ⟨tr, [], [], false⟩], trustedSeen := w.trustedSeen || tr }
   | .setTrusted k b =>
     match getCtx w k with
     | some c => { w with ctxs := w.ctxs.set k (some { c with trusted := b }), trustedSeen := w.trustedSeen || b }
     | none => w
+  | .setTrace k b =>
+    match getCtx w k with
+    | some c => { w with ctxs := w.ctxs.set k (some { c with trace := b }) }
+    | none => w
   | .clone k =>
     match getCtx w k with
-    | some c => { w with ctxs := w.ctxs ++ [some c] }
+    | some c => { w with ctxs := w.ctxs ++ [some { c with trace := false }] }
     | none => w
   | .free k => { w with ctxs := w.ctxs.set k none }
   | .purge k =>
     match getCtx w k with
-    | some c => { w with ctxs := w.ctxs.set k (some { c with objs := [], funs := [] }) }
+    | some c => { w with ctxs := w.ctxs.set k (some { c with objs := [], funs := [], trace := false }) }
     | none => w
   | .compile k prog =>
     match getCtx w k with
@@ -293,7 +328,9 @@ def hostStep (ext : Ext) (w : World) : HostOp → World
     | none => w
   | .run x k =>
     match getExe w x, getCtx w k with
-    | some ns, some c => { w with ctxs := w.ctxs.set k (some { c with objs := runNodes c.funs runFuel ns c.objs }) }
+    | some ns, some c =>
+      let r := runNodes c.funs runFuel ns ⟨c.objs, c.trace, false⟩
+      { w with ctxs := w.ctxs.set k (some { c with objs := r.objs, trace := r.trace }), lastRaised := r.raised }
     | _, _ => w
   | .freeExe x => { w with exes := w.exes.set x none }
 
@@ -528,5 +565,110 @@ def srun (s : SState) : List SOp → Except HErr SState
 def allReleased (s : SState) : Bool := s.ctxs.all (· != .live)
 
 end S
+
+/-! ## Part M — modules, constructor failures and method calls on top of S (C17)
+
+`ComplexCTORExpression::value` → `Complex::newInstance(type_id, ctor_id, ctx, args)`: the module's `createObject` either
+returns a handle (then `new Complex(type_id, handle)`: the object belongs to module `type_id` for ever) or returns
+nothing / raises (then NO `Complex` exists: nothing was created, nothing will be destroyed). `MemberMETHODExpression::
+value` (member_complex.cpp:50-62): the receiver VALUE is evaluated; a null value → the method is not executed; a value
+whose run-time type `val.type().minor()` differs from the `_method_type_id` the call was compiled for → run-time error
+`EXC_RT_BAD_COMPLEX_S`, the module is not called; otherwise `plug.instance->executeMethod(*val.complex(), method id,
+ctx, _args)` — the argument expressions of the script, as they are. -/
+namespace M
+open H S
+
+/-- one execution of a module method, as the module sees it -/
+structure Call where
+  o : Nat                 -- the object it was executed on
+  m : Nat                 -- the module whose method it is (`_method_type_id`)
+  pos : Nat               -- how many create/destroy events had happened before
+  name : String
+  args : List String      -- the argument dump
+  deriving DecidableEq, Repr
+
+structure MState where
+  s : SState
+  modOf : List Nat        -- modOf[o] = the module (type id) object `o` was created by
+  calls : List Call
+  failed : Nat            -- constructor calls that produced no object
+  refused : Nat           -- method calls stopped by the receiver check
+  unloaded : Bool         -- `bloc_deinit_plugins` / `PluginManager::destroy()` was called (and no module imported again)
+
+def MState.init : MState := ⟨SState.init, [], [], 0, 0, false⟩
+
+inductive MOp
+  | store (op : SOp)                                        -- any store-level operation except a construction
+  | construct (k m : Nat)                                   -- constructor of module m succeeded, the handle goes to context k
+  | constructFail (k m : Nat)                               -- createObject returned nothing / raised
+  | method (i m : Nat) (name : String) (args : List String) -- method of module m called on the value holding handle i
+  | deinit                                                  -- bloc_deinit_plugins: every module instance deleted, libraries closed
+  deriving DecidableEq, Repr
+
+def isConstruct : SOp → Bool
+  | .construct _ => true
+  | _ => false
+
+/-- while the modules are loaded -/
+def mstepLoaded (s : MState) : MOp → Except HErr MState
+  | .store op =>
+    if isConstruct op then .error .illFormed      -- a construction must say which module: `construct k m`
+    else match sstep s.s op with
+      | .ok s' => .ok { s with s := s' }
+      | .error e => .error e
+  | .construct k m =>
+    match sstep s.s (.construct k) with
+    | .ok s' => .ok { s with s := s', modOf := s.modOf ++ [m] }
+    | .error e => .error e
+  | .constructFail k _ =>
+    if ctxLive s.s k then .ok { s with failed := s.failed + 1 } else .error .illFormed
+  | .method i m name args =>
+    match liveSlot s.s.h i with
+    | some (.ref o) =>
+      if s.modOf[o]? == some m then .ok { s with calls := s.calls ++ [⟨o, m, s.s.h.log.length, name, args⟩] }
+      else .ok { s with refused := s.refused + 1 }
+    | some .null => .error .nullDeref      -- `*val.complex()` of a moved-from handle (never produced by the store level)
+    | _ => .error .illFormed
+  | .deinit => .ok { s with unloaded := true }
+
+/-- after `PluginManager::destroy()` (and before any module is imported again): `PluginManager::instance()` is a NEW
+manager holding only the placeholder entry; `plugged(type id)` answers that entry, whose `instance` is null
+(plugin_manager.h:51-56). `Complex::newInstance` then returns nothing (`if (module.instance)`, complex.cpp:54): every
+constructor call fails; `~Complex` of a LAST reference and `executeMethod` call through the null instance
+(complex.cpp:70, member_complex.cpp:62): the C-level hazard `nullDeref`. An operation that destroys nothing is as before. -/
+def mstepUnloaded (s : MState) : MOp → Except HErr MState
+  | .store op =>
+    if isConstruct op then .error .illFormed
+    else match sstep s.s op with
+      | .ok s' => if s'.h.log.length == s.s.h.log.length then .ok { s with s := s' } else .error .nullDeref
+      | .error e => .error e
+  | .construct k _ => if ctxLive s.s k then .ok { s with failed := s.failed + 1 } else .error .illFormed
+  | .constructFail k _ => if ctxLive s.s k then .ok { s with failed := s.failed + 1 } else .error .illFormed
+  | .method i m _ _ =>
+    match liveSlot s.s.h i with
+    | some (.ref o) => if s.modOf[o]? == some m then .error .nullDeref else .ok { s with refused := s.refused + 1 }
+    | some .null => .error .nullDeref
+    | _ => .error .illFormed
+  | .deinit => .ok s
+
+def mstep (s : MState) (op : MOp) : Except HErr MState :=
+  if s.unloaded then mstepUnloaded s op else mstepLoaded s op
+
+def mrun (s : MState) : List MOp → Except HErr MState
+  | [] => .ok s
+  | op :: rest =>
+    match mstep s op with
+    | .ok s1 => mrun s1 rest
+    | .error e => .error e
+
+/-- the store-level operation(s) an `MOp` stands for -/
+def toS : MOp → List SOp
+  | .store op => [op]
+  | .construct k _ => [.construct k]
+  | .constructFail _ _ => []
+  | .method _ _ _ _ => []
+  | .deinit => []
+
+end M
 
 end BlocV.Plugin
